@@ -37,7 +37,13 @@ def corrupt(wire: bytes) -> bytes:
     while body[:1] == bytes([ref_ash.CAN]):
         pre += body[:1]
         body = body[1:]
-    raw = bytearray(ref_ash.unstuff(body))
+    try:
+        raw = bytearray(ref_ash.unstuff(body))
+    except ref_ash.BadEscape:
+        # the sender stuffed the frame wrongly (a defect the checks report elsewhere): damage a raw byte instead
+        b = bytearray(body)
+        b[len(b) // 2] ^= 0x04
+        return pre + bytes(b) + bytes([ref_ash.FLAG])
     raw[min(1, len(raw) - 1)] ^= 0x04
     return pre + ref_ash.stuff(bytes(raw)) + bytes([ref_ash.FLAG])
 
